@@ -26,7 +26,7 @@ CHECKS = {
    text='rapidcheck-generated histories over a pool of generators and event objects, each in its own forked child; at every shot the event must be bit-identical (deviate count included) to what a PRISTINE PROCESS (forked before any library call) produces with a fresh generator and a fresh event from the same tapes. Plus one marathon history per shard (one generator per configuration, tens of thousands of shots hopping between them, minimised by delta debugging) and deep single-instance histories (6000 warm-up shots, then 3000 tapes shot by the warmed instance and by its cold twin forked right after initialize()).',
    note='~130 configurations: 21 hand-picked (angular correlations, deep cascades, chains, windows, 4b, b+ modes), every published background name, two double-beta entries per legacy mode, 36 momentum-direction-lock variants; thorough tier repeats under ASan/UBSan.', ref='4 C07'),
  'C08': dict(engine='libFuzzer+sanitized drivers', technique='coverage-guided fuzzing (structure-aware libFuzzer target) and property-based drivers run under ASan/UBSan/_GLIBCXX_ASSERTIONS',
-   text='The generation drivers of C04/C05 are re-run against an ASan+UBSan+_GLIBCXX_ASSERTIONS build and a structure-aware libFuzzer target explores (configuration, reuse pattern, MDL operation, tape); any sanitizer report is a violation.',
+   text='The generation drivers of C04/C05 (incl. the cascade-level pass) and the C10 operation driver are re-run against an ASan+UBSan+_GLIBCXX_ASSERTIONS build and two libFuzzer targets explore (configuration, reuse pattern, MDL operation, tape) and the gA samplers; any sanitizer report is a violation. While a generator is initialised the harness poisons guarded red zones around its fixed-size spectrum tables, so that an index one before / one past a table (which stays inside the object) is reported too.',
    note='Sanitizers are the oracle; leak detection is off; documented rejections (exceptions) are not failures.', ref='4 C08'),
  'C09': dict(engine='proto (exhaustive DFS + rapidcheck)', technique='exhaustive enumeration of call sequences up to a fixed length + stateful property-based testing against an explicit protocol model',
    text='All sequences of up to 4 (quick) / 5 (thorough) calls over an alphabet of 28 abstract public calls are enumerated and compared with an explicit model after every step (which calls must raise, every getter, reset == fresh, events and toallevents == fresh instance); a failure-recovery family (valid configuration, spoiling call, refused initialize, repairing call, every 0-2 further calls, initialize, shoot, shoot) is enumerated completely; rapidcheck adds longer sequences with whole-sequence shrinking.',
@@ -50,7 +50,7 @@ CHECKS = {
    text='Hypothesis builds synthetic p.d.f. tables; the repo\'s own mkocdfdata.py functions write the data files; the native checker (sanitized build) verifies decoder == encoder input to the encoding precision, table validity, cell membership and monotonicity of the inverse-transform sampler over thousands of deviate pairs per data set, shoot() vs sampled quantities for both methods, and mode 21 through decay0_generator.',
    note='Every table row carries probability; Q exceeds e_min+e_max by at least 2e-4 MeV.', ref='4 C14'),
  'C15': dict(engine='libFuzzer', technique='coverage-guided fuzzing with in-target validity oracles under ASan/UBSan',
-   text='Four libFuzzer targets (event_reader, gA p.d.f./o.c.d.f. loaders + samplers, load_optimized_cdf_array, catalogue parsers via the guarded hook) seeded with shipped valid files and encoder output; the oracle (exception or the loader\'s own validity predicate, no sanitizer report, no hang, bounded allocation) sits inside each target; saved regression inputs are replayed first.',
+   text='Four libFuzzer targets (event_reader, gA p.d.f./o.c.d.f. loaders + samplers, load_optimized_cdf_array, catalogue parsers via the guarded hook) seeded with shipped valid files and encoder output, each with a token dictionary; before the campaigns a systematic tier replaces every token of every valid seed file by every dictionary entry (nan, inf, 1e999, -1, format marks ...); the oracle (exception or the loader\'s own validity predicate incl. finite non-negative tables, no sanitizer report, no hang, bounded allocation) sits inside each target; saved regression inputs are replayed first.',
    note='Only crash-/leak- artifacts count; timeout/oom artifacts only if they reproduce 3x alone; inputs <= 4 KiB.', ref='4 C15'),
  'C17': dict(engine='tapecheck+g4check (Geant4 stand-in)', technique='property-based differential testing of the unchanged extension sources against the core generator, on a minimal stand-in for the Geant4 classes',
    text='The extension sources are compiled unchanged against /verif/g4stub; generated requests (valid with 0-2 mutations) x vertex generators; oracle: the core tools on the same request - same refusal verdict, and for accepted requests one primary per particle with species, momentum (MeV), time (s) and vertex equal to the core generator\'s event on the same seed.',
